@@ -1346,6 +1346,50 @@ theorem groupFor_nodup (evs : List EvidenceV) (P : ProofV) (h : (evs.map (·.1))
   exact (List.Sublist.map _ List.filter_sublist).nodup h
 
 
+/-! ### governance over the set of supported chains: what it amounts to -/
+
+theorem govOps_no_attempt (s : St) (g : Gov) : ∀ op ∈ govOps s g, op.attempt = none := by
+  intro op h
+  cases g <;> simp only [govOps, List.mem_map, List.not_mem_nil] at h
+  obtain ⟨m, -, rfl⟩ := h
+  rfl
+
+theorem run_no_attempt : ∀ (ops : List Op) (s : St), (∀ op ∈ ops, op.attempt = none) →
+    (run s ops).processed = s.processed ∧ (run s ops).accepted = s.accepted ∧
+    (run s ops).effects = s.effects
+  | [], _, _ => ⟨rfl, rfl, rfl⟩
+  | op :: ops, s, h => by
+    have h1 := no_attempt_step s op (h op List.mem_cons_self)
+    have h2 := run_no_attempt ops (step s op) (fun o ho => h o (List.mem_cons_of_mem _ ho))
+    simp only [run]
+    exact ⟨h2.1.trans h1.2.2.1, h2.2.1.trans h1.1, h2.2.2.trans h1.2.1⟩
+
+theorem run_removes : ∀ (ids : List Nat) (s : St),
+    run s (ids.map Op.remove) = { s with queue := s.queue.filter fun m => !ids.contains m.id }
+  | [], s => by
+    cases s
+    simp only [List.map_nil, run, List.contains_nil, Bool.not_false]
+    congr 1
+    exact (List.filter_eq_self.2 fun _ _ => rfl).symm
+  | i :: ids, s => by
+    simp only [List.map_cons, run, step]
+    rw [run_removes ids]
+    simp only [removeMsg, List.filter_filter]
+    congr 1
+    apply List.filter_congr
+    intro m _
+    simp only [List.contains_cons]
+    cases ids.contains m.id <;> cases h : (m.id == i) <;> simp [bne, h]
+
+theorem runE_is_a_history : ∀ (es : List Ev) (s : St), ∃ ops, run s ops = runE s es
+  | [], _ => ⟨[], rfl⟩
+  | .op o :: es, s => by
+    obtain ⟨ops, h⟩ := runE_is_a_history es (step s o)
+    exact ⟨o :: ops, h⟩
+  | .gov g :: es, s => by
+    obtain ⟨ops, h⟩ := runE_is_a_history es (gov s g)
+    exact ⟨govOps s g ++ ops, by rw [run_append]; exact h⟩
+
 end Lemmas
 
 /-! ## Property theorems (C07) -/
@@ -3830,6 +3874,91 @@ theorem post_state_receipt_is_another_proof (hash : Nat) (data root : Bytes) (hr
     simp [TxProof.ofReceiptField, receiptPostState] at this
     exact hne (this hroot)
 
+/-! ### 13. the used-transaction set belongs to no chain: governance over the SET of supported chains
+
+C07: "the same remote transaction is never accepted for a second message" — whatever happens between
+the two submissions.  The model so far had one chain and a history vocabulary without governance over
+the set of chains.  `Gov` (Model/Attest.lean) adds `AddSupportForNewChain` / `RemoveSupportForChain`, of
+another chain or of this very chain, as what they are for the state of this chain: the store
+`tx-processed` is keyed by the transaction hash under the MODULE's store key, no chain owns it, and
+neither operation touches it; removing this chain deletes its queued messages, nothing else the router
+reads.  The harness drives the real `AddSupportForNewChain` / `RemoveSupportForChain` between the
+acceptance of a transaction and its re-submission for a twin message (ops `gov …`, `used …`). -/
+
+/-- **chain_governance_is_a_history.** Every governance operation over the set of supported chains is,
+for the state of this chain, a run of ordinary history ops none of which is an attestation attempt. -/
+theorem chain_governance_is_a_history (s : St) (g : Gov) :
+    ∃ ops, (∀ op ∈ ops, op.attempt = none) ∧ run s ops = gov s g :=
+  ⟨govOps s g, govOps_no_attempt s g, rfl⟩
+
+/-- **chain_governance_keeps_used_transactions.** Adding or removing a chain — another one, or this one
+— leaves the used-transaction set, the acceptance log, the success effects and the keeper state of
+the chain exactly as they were; removing this chain empties its queue (and nothing else does). -/
+theorem chain_governance_keeps_used_transactions (s : St) (g : Gov) :
+    (gov s g).processed = s.processed ∧ (gov s g).accepted = s.accepted ∧
+    (gov s g).effects = s.effects ∧ (gov s g).chain = s.chain ∧
+    (gov s g).queue = if g = .removeThis then [] else s.queue := by
+  have h := run_no_attempt (govOps s g) s (govOps_no_attempt s g)
+  refine ⟨h.1, h.2.1, h.2.2, ?_, ?_⟩
+  · cases g <;> try rfl
+    show (run s ((s.queue.map fun m => Op.remove m.id))).chain = s.chain
+    have : (s.queue.map fun m => Op.remove m.id) = (s.queue.map (·.id)).map Op.remove := by
+      rw [List.map_map]; rfl
+    rw [this, run_removes]
+  · cases g <;> try rfl
+    show (run s ((s.queue.map fun m => Op.remove m.id))).queue = []
+    have : (s.queue.map fun m => Op.remove m.id) = (s.queue.map (·.id)).map Op.remove := by
+      rw [List.map_map]; rfl
+    rw [this, run_removes]
+    simp only [List.filter_eq_nil_iff]
+    intro m hm
+    simp only [List.contains_iff_mem, Bool.not_eq_eq_eq_not, Bool.not_true, Bool.not_eq_false]
+    exact List.mem_map_of_mem hm
+
+/-- **used_tx_refused_after_chain_governance.** One state, any sequence of governance operations over
+the set of chains: a transaction that is in the used set before is refused after, for every message
+and in every encoding / with every receipt (the proof `q` only shares the hash). -/
+theorem used_tx_refused_after_chain_governance (s : St) (gs : List Gov) (id : Nat) (p q : TxProof)
+    (hq : q.hash = p.hash) (h : p.hash ∈ s.processed) :
+    (attest (runE s (gs.map Ev.gov)) id (.tx q)).2 ≠ .ok := by
+  obtain ⟨ops, ho⟩ := runE_is_a_history (gs.map Ev.gov) s
+  rw [← ho]
+  exact processed_tx_rejected _ id q (by rw [hq]; exact run_processed_mono ops s _ h)
+
+/-- **tx_single_use_with_chain_governance.** `tx_single_use` over histories in which chains are added
+and removed at any point: the transaction hashes of all acceptances are pairwise different and every
+accepted transaction is (still) in the used set. -/
+theorem tx_single_use_with_chain_governance (es : List Ev) :
+    ((runE {} es).accepted.map (·.2)).Nodup ∧
+    ∀ a ∈ (runE {} es).accepted, a.2 ∈ (runE {} es).processed := by
+  obtain ⟨ops, h⟩ := runE_is_a_history es {}
+  rw [← h]
+  exact tx_single_use ops
+
+/-- **effects_at_most_once_with_chain_governance.** `effects_at_most_once` over the same histories. -/
+theorem effects_at_most_once_with_chain_governance (es : List Ev) :
+    ((runE {} es).accepted.map (·.1)).Nodup ∧
+    (∀ a ∈ (runE {} es).accepted, a.1 ∉ (runE {} es).queue.map (·.id)) ∧
+    (∀ e ∈ (runE {} es).effects, e.msg ∈ (runE {} es).accepted.map (·.1)) ∧
+    ((runE {} es).effects.map Effect.key).Nodup := by
+  obtain ⟨ops, h⟩ := runE_is_a_history es {}
+  rw [← h]
+  exact effects_at_most_once ops
+
+/-- **used_tx_never_accepted_again_with_chain_governance.** C07, "the same remote transaction is never
+accepted for a second message", over histories with chain governance: once a transaction was accepted
+(after `es`), then after ANY further history `es'` — other chains removed or added, this chain removed
+and added again, messages queued, keeper activity, attestations — no proof carrying that transaction
+is accepted, for any message. -/
+theorem used_tx_never_accepted_again_with_chain_governance (es es' : List Ev) (a : Nat × Nat)
+    (ha : a ∈ (runE {} es).accepted) (id : Nat) (q : TxProof) (hq : q.hash = a.2) :
+    (attest (runE (runE {} es) es') id (.tx q)).2 ≠ .ok := by
+  obtain ⟨ops, h⟩ := runE_is_a_history es {}
+  obtain ⟨ops', h'⟩ := runE_is_a_history es' (runE {} es)
+  rw [← h', ← h]
+  rw [← h] at ha
+  exact used_tx_never_accepted_again ops ops' a ha id q hq
+
 /-! ## non-vacuity — every example goes through `run` from the initial state `{}` -/
 
 def exVs : GoValset := { validators := [[48, 120, 97, 97]], powers := [4294967296], valsetId := 3 }
@@ -4210,5 +4339,25 @@ example : (attest exS 1 (.tx (TxProof.ofReceiptField 77 exData (some [1]) false 
 example : (attest exS 1 (.tx (TxProof.ofReceiptField 77 exData (some []) false 0 0 none))).2 = .txFailed ∧
     (attest exS 1 (.tx (TxProof.ofReceiptField 77 exData (some [2]) false 0 0 none))).2 = .receiptErr ∧
     (attest exS 1 (.tx (TxProof.ofReceiptField 77 exData none false 0 0 none))).2 = .receiptErr := by decide
+
+/-! chain governance between two submissions of one transaction (§13): the twin update-valsets 1 and 2
+of `exTwinOps`; transaction 5 is accepted for message 1 -/
+def exGovS : St := run {} (exTwinOps ++ [.attest 1 (.tx (exUvP 7))])
+set_option maxRecDepth 100000 in
+example : exGovS.accepted = [(1, 5)] ∧ exGovS.processed = [5] ∧ exGovS.queue.map (·.id) = [2] := by decide
+-- another chain is removed (and added again): the transaction is still refused for the twin
+set_option maxRecDepth 100000 in
+example : (attest (runE exGovS [.gov .removeOther]) 2 (.tx (exUvP 7))).2 = .alreadyProcessed ∧
+    (attest (runE exGovS [.gov .removeOther, .gov .addOther]) 2 (.tx (exUvP 7))).2 = .alreadyProcessed ∧
+    (attest (runE exGovS [.gov .addOther, .gov .removeOther]) 2 (.tx { exUvP 7 with enc := 2 })).2 = .alreadyProcessed := by
+  decide
+-- this chain is removed (its queue goes), added again, the same update-valset is queued once more
+-- (id 3) and the old transaction is presented for it: refused; a fresh transaction is accepted
+def exGovEs : List Ev := [.gov .removeThis, .gov .addThis, .op (.enqueue (.uv exUvF 7) exVs exSigs)]
+set_option maxRecDepth 100000 in
+example : (runE exGovS [.gov .removeThis]).queue = [] ∧ (runE exGovS [.gov .removeThis]).processed = [5] ∧
+    (runE exGovS exGovEs).queue.map (·.id) = [3] ∧
+    (attest (runE exGovS exGovEs) 3 (.tx (exUvP 7))).2 = .alreadyProcessed ∧
+    (attest (runE exGovS exGovEs) 3 (.tx exUvP')).2 = .ok := by decide
 
 end Paloma.Attest
